@@ -51,6 +51,16 @@ def model(ctx):
 def replay(ctx, mdl, shards=None):
     paths, nnodes, nedges = vf.path_cover(mdl["ideal"].edges)
     ctx.rng.shuffle(paths)
+    if os.environ.get("VERIF_CORRUPT"):
+        # binding self-test: corrupt ONE expected state (the route survives... is claimed lost after a stale teardown /
+        # a kept registration is claimed rejected); the run must not end with exit 0
+        done = False
+        for p in paths:
+            for st in p["steps"]:
+                if not done and st["a"]["act"] in ("AcceptHello", "DeliverAck") and st["a"]["kept"]:
+                    st["t"]["reg"][st["a"]["x"]] = []
+                    done = True
+        ctx.log("VERIF_CORRUPT: one expected registration corrupted:", done)
     inp = os.path.join(ctx.work, "peerreg_paths.json")
     vf.write_json(inp, {"paths": paths, "scenarios": mdl["seeds"]})
     if shards is None:
